@@ -13,6 +13,14 @@ def cable_of(tok):
     return tok
 
 
+def bit_of(tok):
+    """bit index of a `name[idx]` token, 0 without index"""
+    if tok.endswith(']') and '[' in tok:
+        idx = tok[tok.rfind('[') + 1:-1].split(':')[0]
+        return int(idx) if idx.isdigit() else 0
+    return 0
+
+
 def split_models(doc):
     """[(model name, [lines after the .model line up to and including .end])]"""
     models, cur = [], None
@@ -43,6 +51,7 @@ def doc_features(doc):
         hdr_open, seen_outputs = True, False
         in_info, broken = False, False
         conn_cables = []
+        merge_names = []
         first_latch = None
         for l in lines:
             head = l[0] if l else ''
@@ -89,7 +98,10 @@ def doc_features(doc):
                     c = cable_of(t)
                     if c in conn_cables:
                         f.add('conn-twice')
+                    if c in merge_names:
+                        f.add('conn-capture')       # the operand spells the cable name an earlier .conn created
                     conn_cables.append(c)
+                merge_names.append('%s_%d_%s_%d' % (cable_of(l[1]), bit_of(l[1]), cable_of(l[2]), bit_of(l[2])))
             if head == '.blackbox':
                 f.add('blackbox')
         # .conn on a bit of a multi-wire cable: remove_wire renumbers the remaining wires
@@ -132,6 +144,21 @@ def port_net_merged(dump):
                     p, b = pin[4:].rsplit('.', 1)
                     if p != cname or int(b) != k or (len(wires) > 1) != (widths.get(p, 1) > 1):
                         return True
+    return False
+
+
+def port_bit_unattached(dump):
+    """a port with a direction of the top model has a bit that sits on no wire (only some bits of the bus were
+    named in .inputs/.outputs): the composer writes every bit of the port, so the bit gains a wire on re-reading"""
+    if 'error' in dump or not dump.get('top'):
+        return False
+    m = dump['models'].get(dump['top'][1])
+    if not m:
+        return False
+    on_wire = set(pin for _, wires in m['cables'] for w in wires for pin in w)
+    for p, d, w in m['ports']:
+        if d != 'UNDEFINED' and any('TOP.%s.%d' % (p, b) not in on_wire for b in range(w)):
+            return True
     return False
 
 
